@@ -27,6 +27,9 @@ type TableSpec struct {
 	Header     int  // 0 none,1 caption text,2 caption empty,3 thead,4 tfoot,5 colgroup,6 col,7 th text,8 th empty, 9 empty th then th with text
 	Cell       int  // 0 none,1 abbr attr,2 headers,3 scope,4 lone abbr child,5 abbr child + span
 	Summary    bool
+	// EmptyVal: the summary / abbr / headers / scope attribute is present without a value
+	// (`summary=""`, a bare `scope`): the cascade asks for presence only
+	EmptyVal bool
 	Object     int // 0 none,1 iframe,2 embed,3 object,4 applet
 	ID         string
 }
@@ -48,7 +51,11 @@ func (s TableSpec) HTML(cellText func() string) string {
 		attrs += ` datatable="` + s.Datatable + `"`
 	}
 	if s.Summary {
-		attrs += ` summary="sum"`
+		if s.EmptyVal {
+			attrs += ` summary=""`
+		} else {
+			attrs += ` summary="sum"`
+		}
 	}
 	sb.WriteString("<table" + attrs + ">")
 	switch s.Header {
@@ -102,12 +109,18 @@ func (s TableSpec) HTML(cellText func() string) string {
 				case 3:
 					a += ` role="navigation"`
 				}
-				switch s.Cell {
-				case 1:
+				switch {
+				case s.Cell == 1 && s.EmptyVal:
+					a += ` abbr=""`
+				case s.Cell == 2 && s.EmptyVal:
+					a += ` headers`
+				case s.Cell == 3 && s.EmptyVal:
+					a += ` scope`
+				case s.Cell == 1:
 					a += ` abbr="x"`
-				case 2:
+				case s.Cell == 2:
 					a += ` headers="h"`
-				case 3:
+				case s.Cell == 3:
 					a += ` scope="col"`
 				}
 			}
@@ -190,6 +203,7 @@ func randTableSpec(r *Rng) TableSpec {
 	if s.DescRole == 4 || s.DescRole == 6 || s.DescRole == 7 {
 		s.Nested = true // these roles sit on or inside a nested table
 	}
+	s.EmptyVal = r.Chance(30)
 	if r.Chance(20) {
 		s.Ragged = 1 + r.Intn(2)
 		if r.Chance(50) {
